@@ -243,6 +243,56 @@ def orfLabel (recLen : Nat) (l : Loc) : String :=
     "allorf_" ++ fmtInt digits (a.lo + 1) ++ "_" ++ fmtInt digits b.hi
   | _ => "allorf_" ++ fmtInt digits (l.start + 1) ++ "_" ++ fmtInt digits l.end
 
+/-! ### the translation of the new feature
+
+  `Record.get_aa_translation_from_location` and the `M` replacement of
+  `create_feature_from_location`, for codons over upper/lower-case ACGT.  Biopython's
+  `Seq.translate(table=id)` walks `range(0, n - n % 3, 3)`, looks the upper-cased codon up in the
+  table's forward table, and on a stop codon stops (`to_stop`) or emits `*`; any other codon
+  (ambiguity codes: Biopython's ambiguous table decides) is outside this model: `none`.  The
+  forward table and stop codons are regenerated from `Bio.Data.CodonTable` on every run. -/
+
+/-- `for i in range(0, n - n % 3, 3): codon = sequence[i:i+3]` -/
+def codonsOf (x : Seq) : List Seq := (List.range (x.length / 3)).map fun i => codonAt x (3 * i)
+
+/-- `forward_table[codon]` -/
+def lookupAa (tbl : List (Seq × Char)) (c : Seq) : Option Char := (tbl.find? fun p => p.1 == c).map (·.2)
+
+/-- the codon loop of `_translate_str` -/
+def translateCodons (tbl : List (Seq × Char)) (stops : List Seq) (toStop : Bool) : List Seq → Option (List Char)
+  | [] => some []
+  | c :: cs =>
+    match lookupAa tbl c with
+    | some aa => (translateCodons tbl stops toStop cs).map (aa :: ·)
+    | none =>
+      if stops.contains c then
+        (if toStop then some [] else (translateCodons tbl stops toStop cs).map ('*' :: ·))
+      else none
+
+/-- `Seq.translate(to_stop=…, table=…)` -/
+def bioTranslate (tbl : List (Seq × Char)) (stops : List Seq) (toStop : Bool) (x : Seq) : Option (List Char) :=
+  translateCodons tbl stops toStop (codonsOf (upper x))
+
+/-- `for invalid in "*BJOUZ": string_version = string_version.replace(invalid, "X")` -/
+def replaceInvalid (aa : List Char) : List Char :=
+  aa.map fun c => if ['*', 'B', 'J', 'O', 'U', 'Z'].contains c then 'X' else c
+
+/-- `Record.get_aa_translation_from_location` from the extracted nucleotides on (the explicit
+    trimming to whole codons is what the codon loop does anyway) -/
+def aaTranslation (tbl : List (Seq × Char)) (stops : List Seq) (extracted : Seq) : Option (List Char) :=
+  let x := extracted.filter (· != '-')
+  match bioTranslate tbl stops true x with
+  | none => none
+  | some [] => (bioTranslate tbl stops false x).map replaceInvalid   -- "go past stop codons"
+  | some aa => some (replaceInvalid aa)
+
+/-- `create_feature_from_location`: "always start with methionine"; `none` also stands for the
+    `IndexError` on an empty translation -/
+def featureTranslation (tbl : List (Seq × Char)) (stops : List Seq) (extracted : Seq) : Option (List Char) :=
+  match aaTranslation tbl stops extracted with
+  | some (a :: rest) => some (if a != 'M' then 'M' :: rest else a :: rest)
+  | _ => none
+
 /-! ### `get_trimmed_orf` (search for the latest admissible start codon)
 
   Models the tree with fixes/D57 applied: the new location is
